@@ -23,8 +23,14 @@ Fixpoint updn {A} (l : list A) (i : nat) (x : A) : list A :=
 
 Definition set_excuse (r : oprec) : oprec :=
   {| o_push := o_push r; o_val := o_val r; o_lp := o_lp r; o_got := o_got r; o_excuse := true |}.
+(* observers (Len = -1, IsEmpty = -2, IsFull = -3, kept in o_val) have no boundary excuse *)
 Definition boundary_now (cap : Z) (q : list Z) (r : oprec) : bool :=
+  if o_val r <? 0 then false else
   if o_push r then cap <=? Z.of_nat (length q) else match q with [] => true | _ => false end.
+Definition obs_exact (cap : Z) (q : list Z) (o : Z) : Z :=
+  if o =? -1 then Z.of_nat (length q)
+  else if o =? -2 then (match q with [] => 1 | _ => 0 end)
+  else (if Z.of_nat (length q) =? cap then 1 else 0).
 (* every in-flight operation looks at the FIFO: full (for a push) / empty (for a pop) is an excuse *)
 Definition look (cap : Z) (q : list Z) (t : tstate) : tstate :=
   match t_cur t with
@@ -53,7 +59,7 @@ Definition j_start (cap : Z) (progs : list (list Z)) (s : jstate) (i : nat) : js
       | None => {| j_q := j_q s; j_ths := updn (j_ths s) i t; j_ok := false |}      (* more starts than operations *)
       | Some o =>
           let others := existsb in_flight (updn (j_ths s) i t) in
-          let r := {| o_push := negb (o =? 0); o_val := o; o_lp := false; o_got := 0; o_excuse := others |} in
+          let r := {| o_push := 0 <? o; o_val := o; o_lp := false; o_got := obs_exact cap (j_q s) o; o_excuse := others |} in
           let t' := {| t_next := S (t_next t); t_cur := Some r; t_done := t_done t |} in
           let ths := updn (j_ths s) i t' in
           let ths := if others then map excuse_all ths else ths in
@@ -88,13 +94,17 @@ Definition j_lp (cap : Z) (s : jstate) (i : nat) (push : bool) : jstate :=
   end.
 
 (* reported results of one thread against its records: [1; b] for Push, [2; ok; v] for Pop *)
-Fixpoint check_results (recs : list oprec) (res : list Z) : bool :=
+Fixpoint check_results (cap : Z) (recs : list oprec) (res : list Z) : bool :=
   match recs, res with
   | [], [] => true
   | r :: recs', 1 :: b :: res' =>
-      o_push r && Bool.eqb (negb (b =? 0)) (o_lp r) && (o_lp r || o_excuse r) && check_results recs' res'
+      o_push r && Bool.eqb (negb (b =? 0)) (o_lp r) && (o_lp r || o_excuse r) && check_results cap recs' res'
   | r :: recs', 2 :: ok :: v :: res' =>
       negb (o_push r) && Bool.eqb (negb (ok =? 0)) (o_lp r) && (if o_lp r then v =? o_got r else (v =? 0) && o_excuse r)
-      && check_results recs' res'
+      && check_results cap recs' res'
+  | r :: recs', 3 :: z :: res' =>
+      (* an observer that ran alone is exact; one that overlapped other operations stays within its range *)
+      (o_val r <? 0) && (if o_excuse r then (0 <=? z) && ((if o_val r =? -1 then cap else 1) >=? z) else z =? o_got r)
+      && check_results cap recs' res'
   | _, _ => false
   end.
